@@ -68,6 +68,16 @@ func cacheChild() {
 		}
 		expd[i] = exp{h, e}
 	}
+	// … and the same with debug tags on (ops rcd / rud): options belong to the compilation, not to the cached tree
+	expdDbg := make([]exp, len(job.Docs))
+	for i, d := range job.Docs {
+		h, err := mjml.Render(d, mjml.WithDebugTags(true))
+		e := ""
+		if err != nil {
+			e = err.Error()
+		}
+		expdDbg[i] = exp{h, e}
+	}
 	var parses atomic.Int64
 	orig := mjml.ParseMJML
 	mjml.ParseMJML = func(s string) (*mjml.MJMLNode, error) {
@@ -93,21 +103,33 @@ func cacheChild() {
 			}()
 			switch {
 			case strings.HasPrefix(op, "rc"), strings.HasPrefix(op, "ru"):
-				d, _ := strconv.Atoi(op[2:])
+				dbg := len(op) > 2 && op[2] == 'd'
+				num := op[2:]
+				if dbg {
+					num = op[3:]
+				}
+				d, _ := strconv.Atoi(num)
 				var h string
 				var err error
+				var ropts []mjml.RenderOption
 				if op[1] == 'c' {
-					h, err = mjml.Render(job.Docs[d], mjml.WithCache())
-				} else {
-					h, err = mjml.Render(job.Docs[d])
+					ropts = append(ropts, mjml.WithCache())
 				}
+				expd := expd
+				okBase := 0
+				if dbg {
+					ropts = append(ropts, mjml.WithDebugTags(true))
+					expd = expdDbg
+					okBase = 1000 // the Model's output names the options: rend a o = a + 1000·o
+				}
+				h, err = mjml.Render(job.Docs[d], ropts...)
 				e := ""
 				if err != nil {
 					e = err.Error()
 				}
 				switch {
 				case alphaIDs(h) == alphaIDs(expd[d].html) && e == expd[d].err && h != "":
-					o.Out = fmt.Sprintf("ok%d", d)
+					o.Out = fmt.Sprintf("ok%d", d+okBase)
 				case h == "" && e == expd[d].err && e != "":
 					o.Out = fmt.Sprintf("err%d", d)
 				default:
@@ -485,6 +507,16 @@ func cacheHistories(tier string, seed int64, withConfigs bool) []cacheHist {
 	}
 	frec(nil)
 	hs = append(hs, lifecycleHistories()...)
+	// options belong to the compilation, not to the cached tree: debug tags on / off over one entry, in every order, across
+	// expiry and stop / restart
+	for _, d := range []string{"0", "3", "6"} {
+		c, cd, u, ud := "rc"+d, "rcd"+d, "ru"+d, "rud"+d
+		for _, ops := range [][]string{
+			{cd, c, cd, c}, {c, cd, c}, {cd, u, c, ud, cd}, {cd, full, c, cd}, {c, full, cd, c}, {cd, "s", c, cd, "s", c}, {ud, cd, c}, {cd, cd, c, c, ud, u},
+		} {
+			hs = append(hs, cacheHist{ops: ops})
+		}
+	}
 	// random longer histories
 	n := 500
 	if tier == "thorough" {
@@ -506,7 +538,7 @@ func cacheHistories(tier string, seed int64, withConfigs bool) []cacheHist {
 			if fast {
 				o = r.Pick(append(falpha, "rc0", "rc1", "rc3"))
 			} else {
-				o = r.Pick(append(alpha, "rc0", "rc1", "rc0", "rc6", "rc6", "ru6"))
+				o = r.Pick(append(alpha, "rc0", "rc1", "rc0", "rc6", "rc6", "ru6", "rcd0", "rcd6", "rud0", "rcd1"))
 			}
 			h.ops = append(h.ops, o)
 			if fast && o != "s" {
@@ -574,7 +606,7 @@ func cfgOps(ttl int64) []string {
 
 func runCacheProp(prop string) runFn {
 	return func(res *Result, tier string, seed int64, replay string) {
-		res.Rule = "histories over {cached render of A / A' (one byte differs) / unparsable / invalid-attribute doc / the same behind blank lines / A with trailing whitespace / a document with mj-class, mj-attributes, inline style and an invalid attribute after valid ones, uncached render, advance TTL/2, advance TTL, stop}: exhaustive to length 4 (quick) or 5 (thorough); fast-sweep family (1 ms interval, tick after every step) exhaustive to length 3; seeded random histories up to length 25 (quick) / 125 (thorough); configuration calls made late (while a cleaner runs, after a stop); C14 adds the TTL×interval boundary matrix in both setter orders, a timed survive-the-sweep scenario and a volume scenario (5 000 and 20 000 templates expiring together must be gone two sweeps later). Each history runs in a FRESH process (hx cachechild) and on the Lean Model (driver `cache`); per op: outcome vs uncached compilation, parser calls, cache size, cleaner registered, effective config, cleanup goroutines started/exited. Non-trivial = history with at least one cached compilation; distinct by op list"
+		res.Rule = "histories over {cached render of A / A' (one byte differs) / unparsable / invalid-attribute doc / the same behind blank lines / A with trailing whitespace / a document with mj-class, mj-attributes, inline style and an invalid attribute after valid ones, uncached render, advance TTL/2, advance TTL, stop}; compilations with debug tags on and off over one cached tree (in every order, across expiry and stop / restart); exhaustive to length 4 (quick) or 5 (thorough); fast-sweep family (1 ms interval, tick after every step) exhaustive to length 3; seeded random histories up to length 25 (quick) / 125 (thorough); configuration calls made late (while a cleaner runs, after a stop); C14 adds the TTL×interval boundary matrix in both setter orders, a timed survive-the-sweep scenario and a volume scenario (5 000 and 20 000 templates expiring together must be gone two sweeps later). Each history runs in a FRESH process (hx cachechild) and on the Lean Model (driver `cache`); per op: outcome vs uncached compilation, parser calls, cache size, cleaner registered, effective config, cleanup goroutines started/exited. Non-trivial = history with at least one cached compilation; distinct by op list"
 		drv, err := startDriverPool(8)
 		if err != nil {
 			res.Disagree(Violation{Sig: "driver-missing", Kind: "history", What: err.Error()})
